@@ -12,6 +12,7 @@ import (
 	"github.com/goatcms/goatcore/app/scope/datascope"
 	"github.com/goatcms/goatcore/varutil"
 
+	"verif/explore"
 	"verif/fw"
 )
 
@@ -527,6 +528,10 @@ type witness struct {
 func hexs(s string) *string { h := fmt.Sprintf("%x", s); return &h }
 
 func run(c *fw.Ctx) {
+	runLoops(c)
+	if c.R.InfraError != "" {
+		return
+	}
 	maxLen := 7
 	if c.Thorough() {
 		maxLen = 9
@@ -739,6 +744,14 @@ func run(c *fw.Ctx) {
 }
 
 func replay(wj json.RawMessage) (*fw.Violation, error) {
+	var lw struct {
+		Program string   `json:"program"`
+		Spec    LoopSpec `json:"spec"`
+		Choices []int    `json:"choices"`
+	}
+	if err := json.Unmarshal(wj, &lw); err == nil && strings.HasPrefix(lw.Program, "loop/") {
+		return explore.ReplayProgram(mkLoop(lw.Spec), lw.Choices)
+	}
 	var w witness
 	if err := json.Unmarshal(wj, &w); err != nil {
 		return nil, err
